@@ -1,4 +1,4 @@
-(* C03: the constructor forms on one number, to_positive, rad, get_ra in the ideal instance.
+(* C09_A_construct: subset of C03_construct.v (only the lemmas C09 needs).  C03: the constructor forms on one number, to_positive, rad, get_ra in the ideal instance.
    Angle.reduce_deg is abstracted (block list) and replaced by its characterisation
    C09_A_reduce.reduce_deg_float / reduce_deg_int. *)
 From Coq Require Import Reals ZArith List Bool Lra Lia String.
@@ -33,47 +33,9 @@ Proof.
   unfold mkA_kw, blank. pyrunA. reflexivity.
 Qed.
 
-Lemma init_rad_int z : mkA_kw [VInt z] "radians" = ang (red360 (IZR z * (180 / PI))).
-Proof.
-  unfold mkA_kw, blank. pyrunA. reflexivity.
-Qed.
-
-(* right ascension in hours: reduced, multiplied by 15, reduced again *)
-Lemma init_ra x : mkA_kw [VFloat x] "ra" = ang (red360 (red360 x * 15)).
-Proof.
-  unfold mkA_kw, blank. pyrunA. Rlit_norm.
-  assert (150 / 10 = 15) as -> by lra. reflexivity.
-Qed.
-
-Lemma init_ra_int z : mkA_kw [VInt z] "ra" = ang (red360 (red360 (IZR z) * 15)).
-Proof.
-  unfold mkA_kw, blank. pyrunA. Rlit_norm.
-  assert (150 / 10 = 15) as -> by lra. reflexivity.
-Qed.
-
 (* no argument, copy constructor, one-element tuple / list *)
-Lemma init_empty : mkA [] = ang 0.
-Proof. unfold mkA, blank, no_kw. pyrunA. unfold ang, angT, tol0. Rlit_norm. f_equal. f_equal. f_equal. lra. Qed.
-
 Lemma init_copy d t : mkA [angT d t] = angT d t.
 Proof. unfold mkA, blank, no_kw, angT. pyrunA. reflexivity. Qed.
-
-Lemma init_tuple1 x : mkA [VTuple [VFloat x]] = ang (red360 x).
-Proof.
-  unfold mkA, blank, no_kw. pyrunA. reflexivity.
-Qed.
-
-Lemma init_list1 x : mkA [VList [VFloat x]] = ang (red360 x).
-Proof.
-  unfold mkA, blank, no_kw. pyrunA. reflexivity.
-Qed.
-
-(* set_radians on an existing object keeps its tolerance *)
-Lemma set_radians_float d t x :
-  Angle_set_radians Rops (angT d t) (VFloat x) = VTuple [angT (red360 (x * (180 / PI))) t; VNone].
-Proof.
-  unfold angT. pyrunA. reflexivity.
-Qed.
 
 (* positive form *)
 Lemma to_positive_ideal v t : -360 < v < 360 ->
@@ -88,15 +50,6 @@ Qed.
 
 (* views *)
 Lemma rad_ideal v t : Angle_rad Rops (angT v t) = VFloat (v * (PI / 180)).
-Proof. unfold angT. pyrunA. reflexivity. Qed.
-
-Lemma get_ra_ideal v t : Angle_get_ra Rops (angT v t) = VFloat (v / 15).
-Proof. unfold angT. pyrunA. Rlit_norm. f_equal. field. Qed.
-
-Lemma call_ideal v t : Angle___call__ Rops (angT v t) = VFloat v.
-Proof. unfold angT. pyrunA. reflexivity. Qed.
-
-Lemma float_ideal v t : Angle___float__ Rops (angT v t) = VFloat v.
 Proof. unfold angT. pyrunA. reflexivity. Qed.
 
 (* raw forms used as rewrite rules by the operator proofs *)
